@@ -123,6 +123,19 @@ func Name(name string) {
 	s.mu.Unlock()
 }
 
+// CurrentName returns the name given to the calling goroutine ("" when it has
+// none yet, or outside a controlled scheduler).
+func CurrentName() string {
+	s := cur.Load()
+	if s == nil {
+		return ""
+	}
+	g := gid()
+	s.mu.Lock()
+	defer s.mu.Unlock()
+	return s.names[g]
+}
+
 // Point is a scheduling point that is always enabled.
 func Point(label string) { PointIf(label, nil) }
 
